@@ -395,11 +395,34 @@ impl World {
         false
     }
 
+    /// some identifier the request uses as an alias / name is an SQL keyword or starts with an ASCII digit
     fn has_keyword_identifier(text: &str) -> bool {
         const KW: [&str; 24] = ["group", "order", "select", "from", "where", "table", "index", "join", "limit", "values", "set",
             "union", "in", "is", "not", "null", "on", "or", "and", "as", "by", "to", "case", "when"];
-        text.split(|c: char| !(c.is_alphanumeric() || c == '_'))
+        if text
+            .split(|c: char| !(c.is_alphanumeric() || c == '_'))
             .any(|t| KW.contains(&t.to_lowercase().as_str()) || t.chars().next().map(|c| c.is_ascii_digit()).unwrap_or(false) && t.chars().any(|c| c.is_alphabetic()))
+        {
+            return true;
+        }
+        // an alias made of digits only: the token right before a ':'
+        let chars: Vec<char> = text.chars().collect();
+        for (i, c) in chars.iter().enumerate() {
+            if *c == ':' {
+                let mut j = i;
+                while j > 0 && chars[j - 1].is_whitespace() {
+                    j -= 1;
+                }
+                let mut k = j;
+                while k > 0 && (chars[k - 1].is_alphanumeric() || chars[k - 1] == '_') {
+                    k -= 1;
+                }
+                if k < j && chars[k].is_ascii_digit() {
+                    return true;
+                }
+            }
+        }
+        false
     }
 
     // ---------------------------------------------------------------- admission matrix
